@@ -3,6 +3,7 @@ import PokerVerif.Lemmas.SMBasic
 import PokerVerif.Lemmas.TBSeatsRun
 import PokerVerif.Lemmas.TBAgree
 import PokerVerif.Lemmas.TBAgreeRun
+import PokerVerif.Lemmas.TBGidx
 import PokerVerif.Props.C07
 import PokerVerif.Props.C01
 /-!
@@ -19,16 +20,19 @@ Proved here: all-or-nothing for every seat-manager mutator and for `PlayerReserv
 `C03_update_not_atomic_on_witness`); for batches mixing fixed and random seats the release of the fixed seats is
 modelled (`batchAdd`) and compared with the implementation on every run.
 
-**For every history** (`C03_for_every_history`, `C03_occupants`): starting from `CreateTable`, after any sequence of
-the 16 kinds of event of `TB.Event` — arrivals single and in batches with fixed and drawn seats, sit-ins, top-ups,
-departures, blind changes, pause/close/release/start, gate set-ups and firings (positions drawn or rotated), settlement
-signals, settlements, the continue step, the stale auto-join completion — the table's seat map and player list are tight
-and of the configured length (`Booked`) **and** the seat manager holds, on every seat of the table, exactly the id of the
-player the table lists there, no id being listed twice (`Agree`).  The only hypotheses (`Legal`): each recorded random
-seat draw is one `RandomAssignSeats` could have made (`BatchLegal` — a fact about the recording, checked by the driver on
-every trace) and no membership call ended in a Go panic (`Res.panic`, which the harness reports as `CRASH.*`).  The
-seated-in *flag* is not part of `Agree`: D22 (stale auto-join) makes table and seat manager disagree on it transiently, so
-it is a monitor (`TBSpec.c03Inv`, evaluated once that callback has run), not a theorem.
+**For every history** (`C03_for_every_history`, `C03_occupants`, `C03_membership_calls_cannot_panic`): starting from
+`CreateTable`, after any sequence of the 17 kinds of event of `TB.Event` — arrivals single and in batches with fixed and
+drawn seats, sit-ins, top-ups, departures, blind changes, pause/close/release/start, gate set-ups and firings (positions
+drawn or rotated), turns of the retry loop, settlement signals, settlements, the continue step, the stale auto-join
+completion — the table's seat map and player list are tight and of the configured length (`Booked`), the seat manager
+holds, on every seat of the table, exactly the id of the player the table lists there, no id being listed twice (`Agree`),
+**and** every entry of the hand's player list is an index into the player list (`GidxOK`).  The only hypothesis
+(`DrawsLegal`): each recorded random seat draw is one `RandomAssignSeats` could have made (a fact about the recording,
+checked by the driver on every trace).  No "did not panic" hypothesis is left: in such a state neither `batchAddPlayers` nor
+`calcLeavePlayers` can index out of range (`batchAdd_no_panic`, `batchRemove_no_panic`) — the obstruction met while proving
+the latter was the defect D30 (hand list left stale by a departure after a pause/close mid-hand), repaired in /repo.
+The seated-in *flag* is not part of `Agree`: D22 (stale auto-join) makes table and seat manager disagree on it transiently
+(and D31 can lose a lock-free join under a concurrent open), so it is a monitor (`TBSpec.c03Inv`), not a theorem.
 -/
 namespace SM
 
@@ -221,15 +225,16 @@ example : ArrivalsOK (create exCfg exBlind) exHistory := by
   decide
 
 
-/-- **C03 — for every history**: in every state reachable from `CreateTable` by any legal history (see the header for
-`Legal`), the table's seat bookkeeping is consistent and the seat manager agrees with it seat by seat. -/
-theorem C03_for_every_history (cfg : Meta) (b : Blind) (evs : List Event) (hl : Legal (create cfg b) evs) :
-    Booked (run (create cfg b) evs) ∧ Agree (run (create cfg b) evs) :=
-  run_inv _ evs (create_inv cfg b) hl
+/-- **C03 — for every history**: in every state reachable from `CreateTable` by any history whose recorded seat draws are
+legal, the table's seat bookkeeping is consistent, the seat manager agrees with it seat by seat, and the hand's player list
+points into the player list. -/
+theorem C03_for_every_history (cfg : Meta) (b : Blind) (evs : List Event) (hl : DrawsLegal (create cfg b) evs) :
+    Booked (run (create cfg b) evs) ∧ Agree (run (create cfg b) evs) ∧ GidxOK (run (create cfg b) evs) :=
+  run_inv3 _ evs (create_inv3 cfg b) hl
 
 /-- … spelled out: no two listed players share a seat or an id, every listed player sits on a seat of the table whose
 seat-map entry names him, and the seat manager's occupant of every seat of the table is the table's -/
-theorem C03_occupants (cfg : Meta) (b : Blind) (evs : List Event) (hl : Legal (create cfg b) evs) :
+theorem C03_occupants (cfg : Meta) (b : Blind) (evs : List Event) (hl : DrawsLegal (create cfg b) evs) :
     let t := run (create cfg b) evs
     t.players.Pairwise (fun p q => p.seat ≠ q.seat) ∧ (t.players.map (·.id)).Nodup ∧
     (∀ (i : Nat) (p : Player), t.players[i]? = some p → 0 ≤ p.seat ∧ p.seat < t.cfg.maxSeat ∧ seatMapGet t.seatMap p.seat = some (i : Int) ∧
@@ -237,7 +242,7 @@ theorem C03_occupants (cfg : Meta) (b : Blind) (evs : List Event) (hl : Legal (c
     (∀ seat : Int, 0 ≤ seat → seat < t.cfg.maxSeat → SM.idAt t.sm seat = occId t.seatMap t.players seat) ∧
     SM.IdsUnique t.sm := by
   intro t
-  obtain ⟨hb, ha⟩ := C03_for_every_history cfg b evs hl
+  obtain ⟨hb, ha, _⟩ := C03_for_every_history cfg b evs hl
   refine ⟨MapTight.seats_distinct _ _ hb.1, ha.ids, ?_, ha.seats, sm_unique t hb ha⟩
   intro i p hp
   have hg := hb.1.1.players i p hp
@@ -247,9 +252,20 @@ theorem C03_occupants (cfg : Meta) (b : Blind) (evs : List Event) (hl : Legal (c
   rw [ha.seats p.seat hr.1 hr.2]
   exact occ_of_player t.seatMap t.players hb.1.1 i p hp
 
--- non-vacuity: the example history (three arrivals, joins, a hand with an add-on, a departure) is legal
-example : Legal (create exCfg exBlind) exHistory := by
-  simp only [exHistory, Legal, EventLegal, step, and_true]
+/-- **C03 — no membership call can crash the table**: in every reachable state `PlayersLeave` of anybody, and
+`PlayerReserve` / `UpdateTablePlayers` arrivals with a legal draw, end in `ok` or in an error — never in an index out of
+range (which would leave the seat manager updated and the table not). -/
+theorem C03_membership_calls_cannot_panic (cfg : Meta) (b : Blind) (evs : List Event) (hl : DrawsLegal (create cfg b) evs) :
+    let t := run (create cfg b) evs
+    (∀ ids, (batchRemove t ids).2 ≠ .panic) ∧
+    (∀ js ch, BatchLegal t js ch → (batchAdd t js ch).2 ≠ .panic) := by
+  intro t
+  obtain ⟨hb, ha, hg⟩ := C03_for_every_history cfg b evs hl
+  exact ⟨fun ids => batchRemove_no_panic t ids hb hg, fun js ch h => batchAdd_no_panic t js ch hb ha h⟩
+
+-- non-vacuity: the example history (three arrivals, one on a drawn seat, joins, a hand with an add-on, a departure)
+example : DrawsLegal (create exCfg exBlind) exHistory := by
+  simp only [exHistory, DrawsLegal, DrawLegal, step, and_true]
   decide
 
 /-- D20: a batch update whose join half fails has already applied its departures -/
